@@ -2288,6 +2288,11 @@ impl<'store> FindTextSelectionsIter<'store> {
     /// If this function returns None, the caller function will loop/recurse
     /// Internally this may iterate backwards over a double ended iterator (but results will be reversed and ordered again)
     fn next_textselection(&mut self) -> Option<TextSelectionHandle> {
+        if self.refset.is_empty() {
+            //nothing stands in a relation to no text at all (an annotation without text, an empty set)
+            self.drain_buffer = true;
+            return None;
+        }
         if let TextSelectionOperator::Equals { negate: false, .. } = self.operator {
             // this operator is handled separately, we don't need a secondary iterator (textseliter) for it at all
             // we just find the exact selections by offset
